@@ -731,7 +731,7 @@ const QVector<ObjectType> &objectTypes()
 // A plan of Codec.tla has K slots; field j of a type with more fields takes the value of slot
 // digit_map(j) (the map-th base-K digit of j), so that over the maps 0..ceil(log_K n)-1 every pair
 // of fields receives every pair of slot values.
-QJsonObject objectCase(Ctx &ctx, const QString &cls, int map, const QJsonArray &vals, int variant)
+QJsonObject objectCase(Ctx &ctx, const QString &cls, int map, const QJsonArray &vals, int variant, bool logGetters)
 {
     const ObjectType *t = nullptr;
     for (const auto &x : objectTypes()) {
@@ -760,7 +760,7 @@ QJsonObject objectCase(Ctx &ctx, const QString &cls, int map, const QJsonArray &
         }
         assigned.append(c >= 0 ? QJsonValue(classNames()[c]) : QJsonValue());
     }
-    auto res = t->run(pv);
+    auto res = t->run(pv, logGetters);
     res["cls"] = cls;
     res["map"] = map;
     res["variant"] = variant;
